@@ -264,6 +264,9 @@ func (v *Point) MultiScalarMult(scalars []*Scalar, points []*Point) *Point {
 	multiple := &projCached{}
 	tmp1 := &projP1xP1{}
 	tmp2 := &projP2{}
+	// Start from the identity: v doubles as the accumulator, and the tables
+	// and digits above were derived from inputs that may alias it.
+	v.Set(NewIdentityPoint())
 	// Lookup-and-add the appropriate multiple of each input point
 	for j := range tables {
 		tables[j].SelectInto(multiple, digits[j][63])
